@@ -12,8 +12,9 @@ from .store_monitor import RECENT, Probe, Shadow
 from .store_trace import Trace, exec_label, random_trace
 from .store_env import StoreRun
 
-C01_CLAUSES = {'expunge_range', 'exists_shrinks', 'expunge_in_nonuid', 'fetch_label', 'view_sync'}
-C02_CLAUSES = {'converge_uids', 'converge_flags'}
+C01_CLAUSES = {'expunge_range', 'exists_shrinks', 'expunge_in_nonuid', 'fetch_label', 'view_sync',
+               'copy_target'}
+C02_CLAUSES = {'converge_uids', 'converge_flags', 'false_expunge'}
 
 
 class Monitored:
@@ -21,6 +22,8 @@ class Monitored:
 
     def __init__(self, checkpoint_every: int = 0) -> None:
         self.shadows: dict[int, Shadow] = {}
+        self.boxnum: dict[int, int | None] = {}
+        self.sorted_after: dict[int, list | None] = {}
         self.failures: list[dict] = []
         self.checkpoint_every = checkpoint_every
         self.probe: Probe | None = None
@@ -34,6 +37,11 @@ class Monitored:
         s = label[1]
         sh = self.shadows.setdefault(s, Shadow(s))
         sel = run.selected(s)
+        # the mailbox the client had selected while it read this answer
+        boxnum_before = self.boxnum.get(s)
+        self.boxnum[s] = SE.BOX_NUM.get(sel.lookup, 1) if sel is not None else None
+        if kind == 'cmd' and label[2][0] == 'select':
+            boxnum_before = None
         server_sorted = list(sel._messages._sorted) if sel is not None else None
         # the model keeps _uids and _sorted as one list, and _cache/_flags_key_set
         # as derived from _flags_key_map: check that abstraction on the real object
@@ -45,9 +53,33 @@ class Monitored:
                     sel._session_flags._flags:
                 trace.problems.append({'kind': 'view_abstraction', 'label': repr(label),
                                        'obs': repr(SE.sel_obs(sel))[:600]})
-        for clause, what, obs in sh.feed(label, responses, server_sorted):
+        ids_before = self.sorted_after.get(s)
+        self.sorted_after[s] = server_sorted
+        if kind == 'cmd' and label[2][0] == 'select':
+            ids_before = None
+        for clause, what, obs in sh.feed(label, responses, server_sorted, ids_before):
             self.failures.append({'clause': clause, 'what': what, 'obs': obs, 'step': idx,
                                   'session': s})
+        # "no message that still exists is reported expunged" (glass box: the dict mailbox's
+        # messages / the maildir file that carried the uid)
+        if sh.expunged and boxnum_before is not None:
+            still = sorted(u for u in sh.expunged if run.message_exists(boxnum_before, u))
+            if still:
+                self.failures.append({
+                    'clause': 'false_expunge', 'step': idx, 'session': s,
+                    'what': f'EXPUNGE reported for UID {still}, a message that still exists',
+                    'obs': {'kind': 'false_expunge', 'cmd': label[2][0] if kind == 'cmd' else kind}})
+        # COPY/MOVE: an addressed message that was not among the COPYUID sources must be gone
+        if sh.copy_check is not None and sel is not None:
+            cname, sset, want_uids, src = sh.copy_check
+            alive = run.alive_uids(SE.BOX_NUM.get(sel.lookup, 1))
+            skipped = sorted(u for u in want_uids - src if u in alive)
+            if skipped:
+                self.failures.append({
+                    'clause': 'copy_target', 'step': idx, 'session': s,
+                    'what': f'{cname.upper()} {sset} left out UID {skipped}, which the client '
+                            f'addressed and which still exists',
+                    'obs': {'kind': 'message_skipped', 'cmd': cname}})
         # what this client now believes about flags, for the comparison with the model's
         # client (the identity of a position is taken from the server's list)
         # (not at the IDLE step itself: when IDLE reports pending changes at once the server is
